@@ -4447,6 +4447,7 @@ def h_bytemask(cls, pattern, variant):
         t = terms[i]
         t8 = z3.Extract(7, 0, t) if t.size() > 8 else t
         obls.append(('entry %d: non-zero exactly when the entry is missing' % i, (t8 != 0) != z3.BoolVal(pattern[i])))
+        obls.append(('entry %d is a canonical boolean (0 or 1: the Python layer views these bytes as numpy.bool_), whatever the encoding' % i, z3.And(t8 != 0, t8 != 1)))
 
     def replay(model, ent):
         lc = max(model.eval(nc.lencontent, model_completion=True).as_signed_long(), n)
@@ -4458,7 +4459,7 @@ def h_bytemask(cls, pattern, variant):
         kind_, got = fullnative.akrun(prog)
         exp = [bool(p) for p in pattern]
         payload = dict(program=prog, native=[kind_, got], expected=exp)
-        if kind_ != 'OK' or [bool(x) for x in got] != exp:
+        if kind_ != 'OK' or [bool(x) for x in got] != exp or any(x not in (0, 1, True, False) for x in got):
             return True, '%s bytemask(): native library %s %s, missing entries are %s' % (cls, kind_, str(got)[:150], exp), payload
         return False, 'native library agrees (%s)' % got, payload
     return mdischarge(nc.m, '%s::bytemask pattern=%s variant=%s' % (cls, ''.join('N' if p else 'v' for p in pattern), variant), obls, [], replay=replay, prefer=[nc.lencontent <= 12],
